@@ -440,6 +440,7 @@ def run():
         C01_kani.add(rep, "C15")
     guarded("diagnostics of a failing transform", lambda: rep.add(diagnostics_obligation(prog, engs, fn)))
     guarded("ignore files", lambda: ignore_stack_obligation(rep, ctx))
+    guarded("directory reads", lambda: readdir_errors_obligation(rep, ctx))
     return rep
 
 
@@ -570,4 +571,69 @@ def ignore_stack_obligation(rep, ctx):
                           prop, oblig.fnames(eng), bounds="stack of two inherited matchers", key="ignore:inherited-rules-kept", allow=("return", "panic", "diverge"))
     if o.verdict == "violated":
         replay(o, ctx)
+    rep.add(o)
+
+
+def readdir_errors_obligation(rep, ctx):
+    """Walk::sorted_entries: an error delivered while the entries of a directory are read (the n-th readdir fails) or while the type
+    of an entry is determined is reported with a warning - unless the entry simply disappeared (NotFound) - instead of being
+    discarded with `.ok()`.  E2 over the closures of sorted_entries that receive a `Result<DirEntry, io::Error>` /
+    produce an `Entry` from a DirEntry, run with the error case: a warn call is on every such path."""
+    prog = ctx.lib
+    f = prog.method("Walk", "sorted_entries")
+    eng = oblig.engine(prog, unroll=0, inline=None, extra=dict(optsum.SUMMARIES))
+    clos = prog.closures_of(f)
+    cases = []
+    for g in clos:
+        tys = [t for n, t in g.args[1:]]
+        if any("Result<" in t and "DirEntry" in t for t in tys):
+            cases.append((g, "readdir", [EnumV("Result", "Err", 1, {0: Lazy("io_error", "std::io::Error")})]))
+        elif any(re.search(r"(^|[^<])DirEntry$|fs::DirEntry$", t.strip()) for t in tys):
+            cases.append((g, "entry", [Lazy("dir_entry", "std::fs::DirEntry")]))
+    o = Obligation("sorted_entries: an error while reading the entries of a directory (or the type of an entry) is reported with a warning, not discarded",
+                   "E2 mirsym/z3", [], "closures of Walk::sorted_entries, error case")
+    o.key = "walk:readdir-errors-reported"
+    bad, npaths = None, 0
+    seen_readdir = False
+    for g, kind, args in cases:
+        ps = eng.run(g, args=[None] + args)
+        for p in ps:
+            if p.status in ("abort", "bound"):
+                continue
+            npaths += 1
+            warned = bool(called(p, r"log_warn$|::warn$"))
+            if kind == "readdir":
+                seen_readdir = True
+                if not warned:
+                    bad = "a failing read of the directory's entries yields no warning (closure %s)" % g.name[-40:]
+            else:
+                # Entry::from_dir_entry failing: warn unless the error kind is NotFound
+                fde = called(p, r"Entry::from_dir_entry$")
+                if fde and isinstance(fde[0].ret, Lazy):
+                    failed = z3.BitVec(mirsym.sanitize(fde[0].ret.name + "#d"), 64) == 1
+                    if eng.check(*(list(p.pc) + [failed])) == z3.sat and not warned:
+                        nf = [ev for ev in p.events if ev.kind == "call" and re.search(r"Error::kind$", ev.callee)]
+                        if not nf:
+                            bad = bad or "a failing type query of an entry yields no warning (closure %s)" % g.name[-40:]
+        if bad:
+            break
+    o.functions = oblig.fnames(eng)
+    o.queries = eng.queries
+    o.stats = {"paths": npaths, "states": npaths, "transitions": npaths}
+    if bad:
+        o.verdict, o.detail = "violated", bad
+        o.cex = {"reason": bad}
+        replay(o, ctx)
+    elif not seen_readdir:
+        # no closure receives the Result of the directory iterator: look for an error-discarding conversion in the function itself
+        discards = re.search(r"Result::<std::fs::DirEntry, std::io::Error>::ok|Result<.*DirEntry.*>::ok", f.text) is not None
+        if discards:
+            o.verdict, o.detail = "violated", "sorted_entries discards the errors of the directory iterator with .ok()"
+            o.cex = {"reason": o.detail}
+            replay(o, ctx)
+        else:
+            o.verdict, o.detail = "inconclusive", "the handling of the directory iterator's errors was not located"
+    else:
+        o.verdict = "holds"
+        o.witness = "%d closure paths" % npaths
     rep.add(o)
